@@ -35,6 +35,7 @@ const (
 	vfC10RelPush
 	vfC10Adv
 	vfC10ArmPush
+	vfC10GapPub
 )
 
 type vfC10Step struct {
@@ -43,6 +44,7 @@ type vfC10Step struct {
 	Gate     int  // subscribe: 0 none, 1 AddPresence, 2 before the history read, 3 log window (buffer locked .. subscribe push); unsubscribe: 0 none, 1 RemovePresence, 2 PublishLeave
 	ByServer bool // unsubscribe through Client.Unsubscribe instead of a client command
 	Adv      int  // milliseconds
+	Which    int  // releaseOps: 0 all gates, 1 only the subscribe's, 2 only the unsubscribe's
 }
 
 type vfC10Case struct {
@@ -79,7 +81,9 @@ func (s vfC10Step) String() string {
 	case vfC10Unsub:
 		return fmt.Sprintf("unsubscribe(gate=%s byServer=%v)", []string{"none", "RemovePresence", "PublishLeave"}[s.Gate], s.ByServer)
 	case vfC10RelOps:
-		return "releaseOps"
+		return "releaseOps" + []string{"", "(subscribe)", "(unsubscribe)"}[s.Which]
+	case vfC10GapPub:
+		return "lostPub+pub(insufficient state)"
 	case vfC10RelPush:
 		return "releaseWriter"
 	case vfC10Adv:
@@ -133,7 +137,7 @@ func vfC10Gen(rt *rapid.T) vfC10Case {
 	kinds := []int{vfC10Pub, vfC10Pub, vfC10Pub, vfC10Pub, vfC10Pub, vfC10Pub, vfC10Pub, vfC10JJoin, vfC10JJoin, vfC10JLeave, vfC10JLeave,
 		vfC10Sub, vfC10Sub, vfC10Sub, vfC10Sub, vfC10Unsub, vfC10Unsub, vfC10Unsub, vfC10Unsub,
 		vfC10RelOps, vfC10RelOps, vfC10RelOps, vfC10RelOps, vfC10RelOps, vfC10RelOps,
-		vfC10RelPush, vfC10RelPush, vfC10Adv, vfC10Adv, vfC10ArmPush, vfC10ArmPush, vfC10ArmPush}
+		vfC10RelPush, vfC10RelPush, vfC10Adv, vfC10Adv, vfC10ArmPush, vfC10ArmPush, vfC10ArmPush, vfC10GapPub}
 	for i := 0; i < n; i++ {
 		s := vfC10Step{Kind: rapid.SampledFrom(kinds).Draw(rt, "kind")}
 		if i == 0 {
@@ -160,6 +164,8 @@ func vfC10Gen(rt *rapid.T) vfC10Case {
 				pre := vfC10Step{Kind: vfC10Pub, Hist: c.HistMode == 1 || (c.HistMode == 2 && rapid.Bool().Draw(rt, "lagHist"))}
 				c.Steps = append(c.Steps, vfC10Step{Kind: vfC10ArmPush}, pre)
 			}
+		case vfC10RelOps:
+			s.Which = rapid.SampledFrom([]int{0, 0, 0, 1, 2}).Draw(rt, "which")
 		case vfC10Adv:
 			s.Adv = rapid.SampledFrom([]int{1, 20, 60, 450, 1200}).Draw(rt, "adv")
 		}
@@ -199,6 +205,7 @@ type vfC10Item struct {
 	off     uint64
 	desc    string
 	seq     int64
+	issue   int64 // unsubscribe push: when the server-side unsubscribe that produced it was issued
 	enq     int64 // when the frame was handed to the connection (queue or transport), in world sequence numbers
 }
 
@@ -435,6 +442,16 @@ func vfC10Run(t *testing.T, cs vfC10Case, out *vfC10Out, isKnown func(string) bo
 			pcw.mu.Unlock()
 		}
 		var srvSubDone, srvUnsubDone []int64 // completion marks of server-side ops that enqueue a push, in order
+		var srvUnsubIssue []int64            // issue marks of the same server-side unsubscribes (0 completion = unknown)
+		unsubByServer := false
+		unsubGateParked := func() bool { return w.Gates.Waiting("prem") > 0 || w.Gates.Waiting("pleave") > 0 }
+		dropNext := false
+		w.broker.Fault = func(d vfDelivery) vfFault {
+			if dropNext && d.Kind == "pub" {
+				return vfDrop
+			}
+			return vfDeliver
+		}
 		var subBusy, unsubBusy, connectBusy atomic.Bool
 		connected := false
 		var parkedSince time.Time
@@ -453,8 +470,8 @@ func vfC10Run(t *testing.T, cs vfC10Case, out *vfC10Out, isKnown func(string) bo
 			if w.Gates.Waiting("padd") > 0 || w.Gates.Waiting("hist") > 0 {
 				return vfC10PhSub
 			}
-			if w.Gates.Waiting("prem") > 0 || w.Gates.Waiting("pleave") > 0 {
-				return vfC10PhUnsub
+			if (w.Gates.Waiting("prem") > 0 || w.Gates.Waiting("pleave") > 0) && !conn.Client.IsSubscribed(ch) {
+				return vfC10PhUnsub // (a re-subscription accepted while the old unsubscribe is still parked counts as established)
 			}
 			if conn.Client.IsSubscribed(ch) {
 				return vfC10PhEst
@@ -521,6 +538,9 @@ func vfC10Run(t *testing.T, cs vfC10Case, out *vfC10Out, isKnown func(string) bo
 			_ = si
 			switch s.Kind {
 			case vfC10Pub:
+				if s.Hist && !unsubBusy.Load() && unsubGateParked() && !conn.Client.IsSubscribed(ch) {
+					continue // every further gap publication would spawn one more insufficient-state unsubscribe
+				}
 				pubN++
 				ph, lag := phase(), w.Gates.Waiting("push") > 0
 				var opts []PublishOption
@@ -557,8 +577,15 @@ func vfC10Run(t *testing.T, cs vfC10Case, out *vfC10Out, isKnown func(string) bo
 				jSubscribed = false
 				produced(fmt.Sprintf("leave:%d", jTag.Load()), "leave", false, ph, lag)
 			case vfC10Sub:
-				if subBusy.Load() || unsubBusy.Load() || connectBusy.Load() || closedNow() {
+				// A client subscribe command may arrive while a SERVER-side unsubscribe (Client.Unsubscribe or the
+				// insufficient-state path) is parked after it released the channel in c.channels.
+				resub := cs.Mode == 0 && unsubGateParked() && (!unsubBusy.Load() || unsubByServer)
+				if subBusy.Load() || connectBusy.Load() || closedNow() || (unsubBusy.Load() && !resub) {
 					continue
+				}
+				if resub {
+					out.labels = append(out.labels, "subscribe_while_server_unsubscribe_parked")
+					out.nontrivial = true
 				}
 				tagCounter++
 				tag := tagCounter
@@ -678,7 +705,7 @@ func vfC10Run(t *testing.T, cs vfC10Case, out *vfC10Out, isKnown func(string) bo
 				}
 				afterLaunch(gates...)
 			case vfC10Unsub:
-				if unsubBusy.Load() || connectBusy.Load() || !connected || closedNow() {
+				if unsubBusy.Load() || connectBusy.Load() || !connected || closedNow() || unsubGateParked() {
 					continue
 				}
 				var gates []string
@@ -696,11 +723,14 @@ func vfC10Run(t *testing.T, cs vfC10Case, out *vfC10Out, isKnown func(string) bo
 					racedJoin[fmt.Sprintf("join:%d", curTag.Load())] = true
 				}
 				unsubBusy.Store(true)
+				unsubByServer = s.ByServer || cs.Uni
 				if s.ByServer || cs.Uni {
+					issued := mark()
 					go func() {
 						conn.Client.Unsubscribe(ch)
 						if !closedNow() {
 							srvUnsubDone = append(srvUnsubDone, mark())
+							srvUnsubIssue = append(srvUnsubIssue, issued)
 						}
 						unsubBusy.Store(false)
 					}()
@@ -719,7 +749,14 @@ func vfC10Run(t *testing.T, cs vfC10Case, out *vfC10Out, isKnown func(string) bo
 				if opsParked() {
 					out.labels = append(out.labels, "ops_released_midway")
 				}
-				for _, g := range []string{"padd", "hist", "prem", "pleave"} {
+				rel := []string{"padd", "hist", "prem", "pleave"}
+				switch s.Which {
+				case 1:
+					rel = rel[:2]
+				case 2:
+					rel = rel[2:]
+				}
+				for _, g := range rel {
 					for w.Gates.Release(g) {
 					}
 				}
@@ -727,6 +764,39 @@ func vfC10Run(t *testing.T, cs vfC10Case, out *vfC10Out, isKnown func(string) bo
 				if !parked() {
 					parkedSince = time.Time{}
 				}
+			case vfC10GapPub:
+				// A publication lost between broker and node, then the next one: the positioned client-side subscription is
+				// ended by the server with an unsubscribe push (insufficient state), through the same unsubscribe path.
+				if cs.Mode != 0 || !cs.Positioned || subBusy.Load() || unsubBusy.Load() || connectBusy.Load() || closedNow() ||
+					opsParked() || !conn.Client.IsSubscribed(ch) {
+					continue
+				}
+				var gates []string
+				switch {
+				case cs.Presence:
+					w.Gates.Arm("prem", 1)
+					gates = []string{"prem"}
+				case cs.EmitJL:
+					w.Gates.Arm("pleave", 1)
+					gates = []string{"pleave"}
+				}
+				lag := w.Gates.Waiting("push") > 0
+				for i := 0; i < 2; i++ {
+					pubN++
+					dropNext = i == 0
+					if i == 1 {
+						srvUnsubIssue = append(srvUnsubIssue, mark())
+						srvUnsubDone = append(srvUnsubDone, 0)
+					}
+					if _, err := w.node.Publish(ch, []byte(fmt.Sprintf(`{"n":%d}`, pubN)), WithHistory(20, 300*time.Second)); err != nil {
+						return "infra: publish error: " + err.Error()
+					}
+					dropNext = false
+					vfSettle()
+					produced(fmt.Sprintf("pub:%d", pubN), "pub", true, vfC10PhEst, lag)
+				}
+				out.labels = append(out.labels, "insufficient_state_unsubscribe")
+				afterLaunch(gates...)
 			case vfC10RelPush:
 				w.Gates.Disarm("push")
 				for w.Gates.Release("push") {
@@ -804,7 +874,10 @@ func vfC10Run(t *testing.T, cs vfC10Case, out *vfC10Out, isKnown func(string) bo
 					case p.Unsubscribe != nil:
 						it.kind = vfC10ItEnd
 						if subject && unsubPushes < len(srvUnsubDone) {
-							it.enq = srvUnsubDone[unsubPushes]
+							if srvUnsubDone[unsubPushes] != 0 {
+								it.enq = srvUnsubDone[unsubPushes]
+							}
+							it.issue = srvUnsubIssue[unsubPushes]
 						}
 						unsubPushes++
 					case p.Disconnect != nil:
@@ -866,7 +939,43 @@ func vfC10Run(t *testing.T, cs vfC10Case, out *vfC10Out, isKnown func(string) bo
 			keyB = "C10:batched-offset0-publication-flushed-after-unsubscribe"
 			keyC = "C10:reply-without-queue-overtakes-queued-pushes"
 			keyD = "C10:own-join-push-races-unsubscribe-woken-by-subscribe"
+			keyE = "C10:unsubscribe-push-enqueued-after-channel-release-follows-resubscribe-reply"
 		)
+		// staleEnd: the anomaly at idx follows an unsubscribe push U whose server-side unsubscribe was issued BEFORE a
+		// start S that precedes U in the frames (S is a re-subscription accepted while that unsubscribe was still running).
+		staleEnd := func(items []vfC10Item, skip map[int]bool, idx int) int {
+			u := -1
+			for i := idx - 1; i >= 0; i-- {
+				if skip[i] || items[i].ch != items[idx].ch {
+					continue
+				}
+				if items[i].kind == vfC10ItEnd {
+					u = i
+					break
+				}
+				if items[i].kind == vfC10ItStart {
+					return -1
+				}
+			}
+			if u < 0 || items[u].issue == 0 {
+				return -1
+			}
+			for i := u - 1; i >= 0; i-- {
+				if skip[i] || items[i].ch != items[idx].ch {
+					continue
+				}
+				if items[i].kind == vfC10ItEnd {
+					return -1
+				}
+				if items[i].kind == vfC10ItStart {
+					if items[i].seq > items[u].issue {
+						return u
+					}
+					return -1
+				}
+			}
+			return -1
+		}
 		classifyAB := func(it vfC10Item) string {
 			pr := prods[it.prodKey]
 			if pr == nil || pr.kind != "pub" || pr.hist || it.off != 0 {
@@ -951,6 +1060,16 @@ func vfC10Run(t *testing.T, cs vfC10Case, out *vfC10Out, isKnown func(string) bo
 						return "[" + keyC + "] " + where + "; frames: " + actual + "; in hand-over order: " + vfC10Render(rep)
 					}
 				}
+			}
+			// (after the ReplyWithoutQueue counterfactual: a queued unsubscribe push overtaken by a direct reply is that finding)
+			if u := staleEnd(cur, skip, idx); u >= 0 {
+				msg := fmt.Sprintf("%s: the preceding %s belongs to a server-side unsubscribe issued before the subscription that is now alive was started", where, cur[u].desc)
+				if isKnown(keyE) {
+					noteKnown(keyE, msg+"; frames: "+vfTrunc(actual, 300))
+					skip[u] = true
+					continue
+				}
+				return "[" + keyE + "] " + msg + "; frames: " + actual
 			}
 			return where + "; frames: " + actual
 		}
